@@ -411,7 +411,7 @@ func main() {
 			_ = json.Unmarshal(s, &v)
 			sampleVals = append(sampleVals, v)
 		}
-		var kc []string
+		kc := []string{}
 		for id := range printedKnown {
 			kc = append(kc, id)
 		}
